@@ -104,7 +104,9 @@ pub(crate) mod __verif_varint {
         match v64::unpack(s) {
             Ok((w, rest)) => {
                 match want {
-                    Some((v, n)) => { assert!(w.x == v); assert!(rest.len() == len - n); }
+                    // (the last clause is the contract unit prototk_iter assumes of the decoder: between 1 and 10 bytes
+                    // are consumed, and never fewer than the canonical encoding of the value has)
+                    Some((v, n)) => { assert!(w.x == v); assert!(rest.len() == len - n); assert!(1 <= n && n <= 10 && w.pack_sz() <= n); }
                     None => { assert!(false); }
                 }
             }
